@@ -251,12 +251,12 @@ PROPS["C01"] = {
     "kani": lambda tier: kfam(["k_rc", "k_get", "k_extend_left", "k_extend_right", "k_min_rc"], tier, 4)
         + exts(["x_single_dir", "x_complement", "x_from_single_dirs", "x_num_ext_dir", "x_get_unique_extension"]),
     "verus": [("compress", r"^CompressFromHash::(extend_kmer|try_extend_kmer|get_kmer_data|get_kmer_id)$"),
-              ("buildstep", r"^CompressFromHash::(left_step|right_step)$"),
+              ("buildstep", r"^CompressFromHash::(left_step|right_step|left_terminal|right_terminal)$"),
               ("packedset", r"^PackedDnaStringSet::(get|len|new)$")],
     "bounded": lambda tier: [("dna_string::verif::d_packed_add_b", "PackedDnaStringSet::add x2 (5 and 3 bases) then get")],
     "design_ref": "DESIGN.md §6 C01 (as-built note in the section-6 preamble)",
     "undecided": [
-        "the composition: build_node's loops over the walked path (reference patterns `for &(k, d) in path.iter()` are outside the Verus subset; only the loop BODIES are under contract), its terminal-extension matches, and compress_kmers' outer loop over seeds - hence 'each input k-mer occurs in exactly one node at exactly one offset' and 'no node contains a foreign k-mer' are NOT decided as whole-run statements",
+        "the composition: build_node's loops over the walked path (reference patterns `for &(k, d) in path.iter()` are outside the Verus subset; only the loop BODIES and the two terminal-extension statements are under contract), and compress_kmers' outer loop over seeds - hence 'each input k-mer occurs in exactly one node at exactly one offset' and 'no node contains a foreign k-mer' are NOT decided as whole-run statements",
         "BaseGraph::add / PackedDnaStringSet::add (generic IntoIterator + Borrow): bounded stand-in only",
         "the entry points compress_kmers (from a sorted slice) and compress_kmers_no_exts (observed while reading: it canonicalises neighbours with min_rc even when stranded) are not under contract",
         "bounded cross-check of the whole pipeline is intractable: boomphf's MPHF construction keeps CBMC busy > 50 min even for 3 concrete keys"],
@@ -271,12 +271,12 @@ PROPS["C02"] = {
     "title": "Nodes are exactly the maximal unbranched paths",
     "kani": lambda tier: kfam(["k_min_rc", "k_extend_left", "k_extend_right"], tier)
         + exts(["x_num_ext_dir", "x_get_unique_extension", "x_single_dir", "x_has_ext", "x_dir"]),
-    "verus": [("compress", None), ("buildstep", r"^CompressFromHash::(left_step|right_step)$"), ("compgraph", r"^CompressFromGraph::|^Node::(len|data)$")],
+    "verus": [("compress", None), ("buildstep", r"^CompressFromHash::(left_step|right_step|left_terminal|right_terminal)$"), ("compgraph", r"^CompressFromGraph::|^Node::(len|data)$")],
     "bounded": lambda tier: [],
     "design_ref": "DESIGN.md §6 C02",
     "undecided": [
         "the global converse (a step refused only because the neighbour is no longer available is a legitimate boundary) and hence 'no two output nodes could be merged'; uniqueness of the decomposition",
-        "build_node / compress_kmers assembling the walked path into exactly one node: the two path loops of build_node are under contract step by step (each step adds exactly the oriented first/last base of its k-mer and folds exactly that k-mer's payload: unit buildstep; node level: compgraph left_node_step / right_node_step), but the loops over the path, the terminal-extension matches (reference patterns Verus rejects) and compress_kmers' outer loop are not - see C01",
+        "build_node / compress_kmers assembling the walked path into exactly one node: the two path loops of build_node are under contract step by step (each step adds exactly the oriented first/last base of its k-mer and folds exactly that k-mer's payload: unit buildstep; node level: compgraph left_node_step / right_node_step), and so are the two terminal-extension matches (left_terminal / right_terminal: the far extension set is complemented exactly when the walk ended on the opposite strand; rules R15 + R16); the loops over the path and compress_kmers' outer loop are not - see C01",
         "node level (CompressFromGraph): try_extend_node is proved sound in both directions relative to the link that find_link resolves (Unique only along an acceptable link, Terminal only if the node may not leave or the resolved link is not acceptable); the lookup result itself is only specified relationally (link_post)"],
     "trust": VERUS_TRUST + GRAPH_TRUST + [SEAM_NOTE,
         "CompressionSpec::join_test / reduce are deterministic functions of their arguments (join_spec, reduce_spec)",
